@@ -78,6 +78,9 @@ type Muxer struct {
 type segmentChannel struct {
 	mu sync.Mutex
 	ch chan *Segment
+	// done is closed when the receiver is unregistered. It releases a read loop that is
+	// blocked, holding mu, on handing a segment to a full ch that is no longer consumed
+	done chan struct{}
 }
 
 type ConnectionClosedError struct {
@@ -198,7 +201,7 @@ func (m *Muxer) RegisterProtocol(
 	// Generate channels
 	senderChan := make(chan *Segment, 10)
 	receiver := make(chan *Segment, 10)
-	receiverChan := &segmentChannel{ch: receiver}
+	receiverChan := &segmentChannel{ch: receiver, done: make(chan struct{})}
 	// Record channels in protocol sender/receiver maps
 	m.protocolReceiversMutex.Lock()
 	if _, ok := m.protocolSenders[protocolId]; !ok {
@@ -249,8 +252,11 @@ func (m *Muxer) UnregisterProtocol(
 	if !ok {
 		return
 	}
+	// Release the read loop if it is blocked on this receiver, otherwise we would wait
+	// forever for its mutex. This happens only once per receiver, since the mapping is
+	// removed below while still holding protocolReceiversMutex
+	close(recvChan.done)
 	// Signal shutdown to protocol
-
 	recvChan.mu.Lock()
 	defer recvChan.mu.Unlock()
 	if recvChan.ch != nil {
@@ -445,6 +451,17 @@ func (m *Muxer) readLoop() {
 		select {
 		case <-m.doneChan:
 			recvChan.mu.Unlock()
+			return
+		case <-recvChan.done:
+			// The receiver is being unregistered while we were waiting to hand over
+			// the segment. Same as above
+			recvChan.mu.Unlock()
+			m.sendError(
+				fmt.Errorf(
+					"received message for unknown protocol ID %d",
+					msg.GetProtocolId(),
+				),
+			)
 			return
 		case recvChan.ch <- msg:
 			recvChan.mu.Unlock()
